@@ -371,9 +371,7 @@ def random_history(rng, src, length, kinds):
                 if k == 'insert':
                     op['i'] = rng.randint(-3, len(pw.expr._contents) + 1)
             else:
-                if k == 'remove':
-                    kids = [c for c in pw.expr._contents if not isinstance(c, (TexText, str))]
-                else:
+                if True:        # replace and remove take children of the body and of the argument groups alike
                     kids = [c for c in pw.expr.all if not isinstance(c, (TexText, str))] if pw is not soup else \
                         [c for c in pw.expr._contents if not isinstance(c, (TexText, str))]
                 if not kids:
